@@ -1175,7 +1175,7 @@ func c15LongTask() mc.Task {
 		for l := 5; l <= 40; l++ {
 			lens = append(lens, l)
 		}
-		lens = append(lens, 63, 64, 65)
+		lens = append(lens, 63, 64, 65, 300, 520, 1000, 1030)
 		for _, L := range lens {
 			seqs := make([]string, 4)
 			for i := range seqs {
@@ -1188,9 +1188,19 @@ func c15LongTask() mc.Task {
 				}
 				seqs[i] = string(b)
 			}
-			for _, w := range [][2]int{{0, L}, {1, L - 2}, {3, 5}, {L - 3, 10}, {2, 9}, {6, 17}} {
-				for _, repl := range []string{"", "GAP", "MAJ", "z"} {
-					for _, ref := range []string{"", "a", "c"} {
+			windows := [][2]int{{0, L}, {1, L - 2}, {3, 5}, {L - 3, 10}, {2, 9}, {6, 17}}
+			repls, refs := []string{"", "GAP", "MAJ", "z"}, []string{"", "a", "c"}
+			if L >= 300 {
+				// windows longer than a block of 256 (and of 512) that end well before the alignment does
+				windows = [][2]int{{10, 257}, {10, 290}, {0, 256}, {7, 255}, {5, 513}, {100, 600}, {3, L - 40}}
+				repls, refs = []string{"", "MAJ"}, []string{"", "a"}
+			}
+			for _, w := range windows {
+				if w[0]+w[1] > L+10 {
+					continue
+				}
+				for _, repl := range repls {
+					for _, ref := range refs {
 						for opt := 0; opt < 4; opt++ {
 							if ref == "" && opt&2 != 0 {
 								continue
